@@ -9,8 +9,8 @@
    sub[r] = subscriber r: on (started), t0 (it asked for everything later than
            t0), got (what its callback has been handed so far, in order), skip
            (ids lost through a listed known-finding deviation; empty otherwise).
-   disk  = ids of the changes that the flush function has been handed so far
-           ("already-flushed log data"); only used to keep a deviation narrow.
+   disk  = ids of the changes whose flush has completed ("already-flushed log
+           data"); only used to keep a deviation narrow.
 
    The property: at every moment got is a PREFIX of the subsequence of log with
    ts > t0  (no gap, no duplicate, no reordering, nothing older than asked for),
@@ -54,7 +54,7 @@ AEnd(r) == sub[r].on /\ sub[r].got = Expected(r)
    rotated buffer is neither in memory nor yet readable from disk, and a
    subscriber that still needs it is silently moved on to newer changes.  The
    deviation admits exactly that: the first delivered change e is not the next
-   expected one but a later one, every change skipped is not yet on disk, and
+   expected one but a later one, the flush of every change skipped has not completed, and
    the flusher was at least minPending buffers behind.  The skipped ids are
    remembered so that the rest of the execution is judged strictly. *)
 Range(s) == {s[i] : i \in 1..Len(s)}
